@@ -618,3 +618,158 @@ pub fn paxos_acceptor_prog<'a>(
         log,
     }
 }
+
+// ---------------------------------------------------------------------------------------------
+// reduce-family state inside an atomic region (C34)
+// ---------------------------------------------------------------------------------------------
+//
+// Same ports as `atomic_counter`: the harness sends write ids 0,1,2,.. in order, so each of the
+// states below equals "number of writes processed so far" and the read-after-write oracle of
+// the counter applies unchanged.
+
+/// State = `max()` of (write id + 1) over the atomic stream.
+pub fn atomic_max<'a>(
+    node: &Process<'a>,
+) -> (OrdSend<u8>, OrdSend<u8>, OrdRecv<u8>, OrdRecv<(u8, usize)>) {
+    let (w_send, writes) = node.sim_input::<u8, TotalOrder, ExactlyOnce>();
+    let (r_send, reads) = node.sim_input::<u8, TotalOrder, ExactlyOnce>();
+    let processing = writes.atomic();
+    let reduced = processing.clone().map(q!(|w| w as usize + 1)).max();
+    let acks = processing.end_atomic();
+    let answers = sliced! {
+        let batch = use::batch(reads, nondet!(/** verif */));
+        let seen = use::atomic(reduced, nondet!(/** verif: atomic read */));
+        let fallback = seen.location().singleton(q!(0usize));
+        batch.cross_singleton(seen.unwrap_or(fallback))
+    };
+    (w_send, r_send, acks.sim_output(), answers.sim_output())
+}
+
+/// State = `min()` of -(write id + 1); the answer is its negation.
+pub fn atomic_min<'a>(
+    node: &Process<'a>,
+) -> (OrdSend<u8>, OrdSend<u8>, OrdRecv<u8>, OrdRecv<(u8, usize)>) {
+    let (w_send, writes) = node.sim_input::<u8, TotalOrder, ExactlyOnce>();
+    let (r_send, reads) = node.sim_input::<u8, TotalOrder, ExactlyOnce>();
+    let processing = writes.atomic();
+    let reduced = processing.clone().map(q!(|w| -(w as i64) - 1)).min();
+    let acks = processing.end_atomic();
+    let answers = sliced! {
+        let batch = use::batch(reads, nondet!(/** verif */));
+        let seen = use::atomic(reduced, nondet!(/** verif: atomic read */));
+        let fallback = seen.location().singleton(q!(0i64));
+        batch.cross_singleton(seen.unwrap_or(fallback)).map(q!(|(r, m)| (r, (-m) as usize)))
+    };
+    (w_send, r_send, acks.sim_output(), answers.sim_output())
+}
+
+/// State = last-write-wins `reduce` of (write id + 1) on the ordered atomic stream.
+pub fn atomic_last_write<'a>(
+    node: &Process<'a>,
+) -> (OrdSend<u8>, OrdSend<u8>, OrdRecv<u8>, OrdRecv<(u8, usize)>) {
+    let (w_send, writes) = node.sim_input::<u8, TotalOrder, ExactlyOnce>();
+    let (r_send, reads) = node.sim_input::<u8, TotalOrder, ExactlyOnce>();
+    let processing = writes.atomic();
+    let reduced = processing
+        .clone()
+        .map(q!(|w| w as usize + 1))
+        .reduce(q!(|cur, new| *cur = new));
+    let acks = processing.end_atomic();
+    let answers = sliced! {
+        let batch = use::batch(reads, nondet!(/** verif */));
+        let seen = use::atomic(reduced, nondet!(/** verif: atomic read */));
+        let fallback = seen.location().singleton(q!(0usize));
+        batch.cross_singleton(seen.unwrap_or(fallback))
+    };
+    (w_send, r_send, acks.sim_output(), answers.sim_output())
+}
+
+/// State = keyed `reduce` (per-key maximum, key = write id mod 2) on the atomic stream; the
+/// answer is the largest value over all keys.
+pub fn atomic_keyed_reduce<'a>(
+    node: &Process<'a>,
+) -> (OrdSend<u8>, OrdSend<u8>, OrdRecv<u8>, OrdRecv<(u8, usize)>) {
+    let (w_send, writes) = node.sim_input::<u8, TotalOrder, ExactlyOnce>();
+    let (r_send, reads) = node.sim_input::<u8, TotalOrder, ExactlyOnce>();
+    let processing = writes.atomic();
+    let reduced = processing
+        .clone()
+        .map(q!(|w| (w % 2, w as usize + 1)))
+        .into_keyed()
+        .reduce(q!(|cur, new| {
+            if new > *cur {
+                *cur = new;
+            }
+        }));
+    let acks = processing.end_atomic();
+    let answers = sliced! {
+        let batch = use::batch(reads, nondet!(/** verif */));
+        let seen = use::atomic(reduced, nondet!(/** verif: atomic read */));
+        let best = seen.entries().map(q!(|(_, v)| v)).max();
+        let fallback = best.location().singleton(q!(0usize));
+        batch.cross_singleton(best.unwrap_or(fallback))
+    };
+    (w_send, r_send, acks.sim_output(), answers.sim_output())
+}
+
+// ---------------------------------------------------------------------------------------------
+// in-tick ordering observations on keyed / merged streams (C38 corpus)
+// ---------------------------------------------------------------------------------------------
+
+/// In-tick `assume_ordering` on a keyed unordered batch (`KeyedStreamOrderHook`): every tick
+/// exposes `[(key, values in the observed order)]` sorted by key.
+pub fn intick_keyed_order<'a>(
+    node: &Process<'a>,
+) -> (NoSend<(u8, i32)>, OrdRecv<Vec<(u8, Vec<i32>)>>) {
+    let tick = node.tick();
+    let (send, input) = node.sim_input::<(u8, i32), NoOrder, ExactlyOnce>();
+    let out = input
+        .into_keyed()
+        .batch(&tick, nondet!(/** verif */))
+        .assume_ordering::<TotalOrder>(nondet!(/** verif: the per-key order is the decision under test */))
+        .fold(q!(|| Vec::new()), q!(|acc: &mut Vec<i32>, v| acc.push(v)))
+        .entries()
+        .sort()
+        .collect_vec()
+        .into_stream()
+        .all_ticks()
+        .sim_output();
+    (send, out)
+}
+
+/// In-tick `merge_ordered` of two ordered batches (`MergeOrderedHook`).
+pub fn intick_merge_ordered<'a>(
+    node: &Process<'a>,
+) -> (OrdSend<i32>, OrdSend<i32>, OrdRecv<Vec<i32>>) {
+    let tick = node.tick();
+    let (send_a, a) = node.sim_input::<i32, TotalOrder, ExactlyOnce>();
+    let (send_b, b) = node.sim_input::<i32, TotalOrder, ExactlyOnce>();
+    let out = a
+        .batch(&tick, nondet!(/** verif */))
+        .merge_ordered(
+            b.batch(&tick, nondet!(/** verif */)),
+            nondet!(/** verif: the interleaving is the decision under test */),
+        )
+        .collect_vec()
+        .into_stream()
+        .all_ticks()
+        .sim_output();
+    (send_a, send_b, out)
+}
+
+/// In-tick `entries_partially_ordered` of a keyed ordered batch (`PartiallyOrderedStreamHook`).
+pub fn intick_partially_ordered<'a>(
+    node: &Process<'a>,
+) -> (OrdSend<(u8, i32)>, OrdRecv<Vec<(u8, i32)>>) {
+    let tick = node.tick();
+    let (send, input) = node.sim_input::<(u8, i32), TotalOrder, ExactlyOnce>();
+    let out = input
+        .into_keyed()
+        .batch(&tick, nondet!(/** verif */))
+        .entries_partially_ordered(nondet!(/** verif: the interleaving is the decision under test */))
+        .collect_vec()
+        .into_stream()
+        .all_ticks()
+        .sim_output();
+    (send, out)
+}
